@@ -185,7 +185,7 @@ def check_heap_repl_progs(quiv):
 
 
 # ---- C15: failures are contained and reach the awaiters (name, source, expected value or None, expected error text) ----
-_IO_FILE = "/tmp/verif_c15_corpus.txt"
+_IO_FILE = os.path.join(ROOT, "build", "c15_corpus_input.txt")
 FAIL_PROGS = [
     ("an awaited process fails: the awaiter fails with the same error", "#{ p = @#{ [1, 0] __integer_divide__ }, !p }", None, "Division by zero"),
     ("awaiter of an awaiter of a failed process", "#{ a = @#{ [1, 0] __integer_divide__ }, b = @#{ !a }, !b }", None, "Division by zero"),
